@@ -386,7 +386,7 @@ prop('C16',
                  'and every stochastic callee receives a seed-derived value.')
 
 prop('C18',
-     [inference.r18_1, inference.r18_2, inference.r18_3, CUR_INIT,
+     [inference.r18_1, inference.r18_2, inference.r18_3, inference.r18_4, CUR_INIT,
       iface.r02_6, layout.r02_4, layout.r13_1, rng.r16_1, rng.r16_5],
      undecided=['xarray selection semantics', 'equality of dataset entries '
                 'with the raw chain'],
